@@ -150,14 +150,31 @@ pub fn build_all(vs: &[VSpec], sigs: &Signals, item: Option<i64>) -> View {
     View::from(vs.iter().map(|v| build(v, sigs, item)).collect::<Vec<View>>())
 }
 
+thread_local! {
+    static CHILDREN_FIRST: std::cell::Cell<bool> = const { std::cell::Cell::new(false) };
+}
+pub fn set_children_first(b: bool) {
+    CHILDREN_FIRST.with(|c| c.set(b));
+}
+pub fn children_first() -> bool {
+    CHILDREN_FIRST.with(|c| c.get())
+}
+
 pub fn build(v: &VSpec, sigs: &Signals, item: Option<i64>) -> View {
     match v {
         VSpec::El(tag, attrs, children) => {
             // a few typed builders, the generic one for everything else (incl. custom elements)
             macro_rules! finish {
                 ($e:expr) => {{
+                    // children-first mode: the children are built before the element that will hold them (a wrapper component that
+                    // calls `children.call()` before creating its wrapper, or a child built first and inserted later)
+                    let pre: Option<Vec<View>> =
+                        if children_first() { Some(children.iter().map(|c| build(c, sigs, item)).collect()) } else { None };
                     let el = apply_attrs($e, attrs, sigs);
-                    let kids: Vec<View> = children.iter().map(|c| build(c, sigs, item)).collect();
+                    let kids: Vec<View> = match pre {
+                        Some(k) => k,
+                        None => children.iter().map(|c| build(c, sigs, item)).collect(),
+                    };
                     if kids.is_empty() {
                         el.into()
                     } else {
